@@ -56,7 +56,7 @@ RuleNames == {
     "C11.EmitWellFormed", "C11.EmitConnId",
     "C14.NeverAboveLink", "C14.OrdinaryWithinProven", "C14.OneProbe", "C14.Converges", "C14.LogProbes",
     "C17.FinSeq", "C17.FinAfterData", "C17.NothingAfterFin", "C17.PeerFinInOrder", "C17.FinAnswered",
-    "C17.ResetAborts", "C17.ResetNoReply", "C17.SynAckForm", "C17.SynAckRepeats", "C17.Transition",
+    "C17.ResetAborts", "C17.ResetNoReply", "C17.SynAckForm", "C17.SynAckRepeats", "C17.Transition", "C17.HandshakeGate",
     "C19.TxBounded", "C19.WriteNotStuck" }
 
 EmptyFn == << >>
@@ -396,7 +396,9 @@ Recv(r) ==
                               <<"C18.NagleDrain", drain, TRUE>>,
                               <<"C12.DeliverToNamed", TRUE, R_C12_DeliverToNamed(Sock(r.local), SKey(r))>> })
                 /\ SetSock(r.local, Processed(Sock(r.local), SKey(r)))
-                /\ last' = [last EXCEPT !.rx = Put(@, k, [seq |-> r.seq, plen |-> r.plen, t |-> r.t, line |-> l])]
+                /\ last' = [last EXCEPT !.rx = Put(@, k, [seq |-> r.seq, plen |-> r.plen, t |-> r.t, line |-> l,
+                                                             gated |-> r.state = "syn-ack-sent" /\ r.t # ST_FIN
+                                                                       /\ r.ack # Nx(e.nxt, SeqMod - 1)])]
 
 (* Disposition of a DATA / FIN packet by the receive side. *)
 Disp(r) ==
@@ -420,6 +422,10 @@ Disp(r) ==
                     <<"C04.AlreadyPresentIsHeld", w = "already_present", R_C04_AlreadyPresentIsHeld(e, s)>>,
                     <<"C04.WithinBuffer", w \in {"consumed", "out_of_order"}, R_C04_WithinBuffer(e1)>>,
                     <<"C17.PeerFinInOrder", w = "fin_accepted", R_C17_PeerFinInOrder(e, s)>>,
+                    \* C17 "until the initiator's first packet arrives": while the endpoint waits for the packet that
+                    \* acknowledges its SYN-ACK, a packet that does not is dropped as a whole - its payload is not taken in
+                    <<"C17.HandshakeGate", w \in {"consumed", "out_of_order"} /\ k \in DOMAIN last.rx /\ last.rx[k].seq = s,
+                                           ~(k \in DOMAIN last.rx) \/ ~last.rx[k].gated>>,
                     \* C03 "a reader sees end-of-stream only after every byte that preceded the peer's FIN": the end-of-stream
                     \* marker enters the reassembly queue only at the position following the last in-order byte
                     <<"C03.FinInSequence", w = "fin_accepted", R_C17_PeerFinInOrder(e, s)>>,
@@ -666,6 +672,7 @@ Tab(r) ==
             \* (MCSocket.tla, variant "stale_shutdown"; that removal is a "stream_remove" judged by the rule above)
             <<"C12.DeadCleanup", w = "stream_remove_dead" /\ Live(ek), ~Live(ek) \/ eps[ek].ended>>,
             <<"C13.BacklogBound", Has(r, "syns"), R_C13_BacklogBound(r.syns, meta.backlog)>>,
+            <<"C13.PairOnce", w = "syn_cached", R_C13_NoPhantomRequest(so, key)>>,
             <<"C13.RefusedOnlyWhenFull", w = "syn_refused", R_C13_RefusedOnlyWhenFull(so, meta.backlog)>>,
             <<"C13.ExcessRefused", w = "syn_refused", TRUE>>,
             <<"C13.ReleaseOnAbandon", w = "connect_dropped", TRUE>>,
@@ -692,8 +699,9 @@ SynArrivedEv(r) ==
 SynMatchedEv(r) ==
     LET a == r.local so == Sock(a) key == SKey(r) IN
     /\ UNCHANGED <<run, now, meta, eps, sendIdx, app, infl, pairs, last>>
-    /\ JudgeAll(SockRules(a, { <<"C13.AcceptFifo", TRUE, R_C13_AcceptFifo(so, key)>> }))
-    /\ SetSock(a, SynMatched(so, key))
+    /\ JudgeAll(SockRules(a, { <<"C13.AcceptFifo", TRUE, R_C13_AcceptFifo(so, key)>>,
+                               <<"C13.PairOnce", TRUE, R_C13_PairOnceSyn(so, <<r.remote, r.cid, r.syn_seq>>)>> }))
+    /\ SetSock(a, [SynMatched(so, key) EXCEPT !.everMatched = @ \cup {<<r.remote, r.cid, r.syn_seq>>}])
 
 EndRun(r) ==
     /\ UNCHANGED <<run, now, meta, eps, sendIdx, app, infl, sk, pairs, last>>
